@@ -60,9 +60,13 @@ def okCodes : List Nat := [400, 404, 405, 409, 415, 422]
 def okStatus : List Nat := [200, 201, 204]
 
 /-- store invariant: a dict (unique keys) in which every object is filed under its own identifier -/
-structure Inv (s : St) : Prop where
-  nodup : (AList.keys s.objs).Nodup
-  ownId : ∀ k o, AList.get k s.objs = some o → o.id = k
+structure InvL (l : List (String × Obj)) : Prop where
+  nodup : (AList.keys l).Nodup
+  ownId : ∀ k o, AList.get k l = some o → o.id = k
+
+def Inv (s : St) : Prop := InvL s.objs
+
+@[simp] theorem Inv_mk (l : List (String × Obj)) (fb : Bool) : Inv ⟨l, fb⟩ ↔ InvL l := Iff.rfl
 
 /-- an exception that `Referable.update_from` itself lets through (class change below the replaced node) -/
 def UFExc (e : PyExc) : Prop := ∃ self other, (updateFrom self other).2 = some e
@@ -205,5 +209,269 @@ theorem getSlice_cases {α : Type} (r : Req) (l : List α) :
     | (split
        · right; simp [raise_get_slice, catch_get_slice]
        · left; exact ⟨_, _, rfl⟩)
+
+
+/-! ### store mutations keep the invariant -/
+
+theorem inv_set {l : List (String × Obj)} (hI : InvL l) {id : String} {o : Obj} (ho : o.id = id) :
+    InvL (AList.set id o l) := by
+  refine ⟨AList.nodup_keys_set hI.nodup, ?_⟩
+  intro k o' hg
+  by_cases hk : k = id
+  · subst hk; simp at hg; subst hg; exact ho
+  · rw [AList.get_set_other _ _ hk] at hg; exact hI.ownId k o' hg
+
+theorem inv_erase {l : List (String × Obj)} (hI : InvL l) (k : String) : InvL (AList.erase k l) := by
+  refine ⟨AList.nodup_keys_erase hI.nodup, ?_⟩
+  intro k' o' hg
+  by_cases hk : k' = k
+  · subst hk; rw [AList.get_erase_same_of_nodup hI.nodup] at hg; cases hg
+  · rw [AList.get_erase_other _ hk] at hg; exact hI.ownId k' o' hg
+
+/-- the mutating tail of a handler: change the loaded object, commit, answer -/
+theorem good_tail {α : Type} {Q : α → Prop} {s : St} (hI : Inv s) {id : String} {o : Obj} (ho : o.id = id) (n : Nat)
+    {a : α} (hq : Q a) :
+    GoodAt Q s (live id o >>= fun _ => commitObj n id o >>= fun _ => pure a) := by
+  unfold GoodAt
+  simp only [M.bind_apply, M.bind', live, commitObj]
+  have h1 : InvL (AList.set id o s.objs) := inv_set hI ho
+  have h0 : InvL s.objs := hI
+  by_cases hf : s.fileBacked = true
+  · by_cases hn : n > 0
+    · simp [hf, hn, hq, h1]
+    · simp [hf, hn, hq, h0, Inv]
+  · simp [hf, hq, h1]
+
+theorem good_listPage {s : St} (hI : Inv s) (fn : String) (r : Req) (items : List Item)
+    (h0 : respStatus fn 0 ∈ okStatus) :
+    GoodAt (fun resp => resp.status ∈ okStatus) s (listPage fn r items) := by
+  unfold listPage
+  apply GoodAt.bind
+  rcases getSlice_cases r items with ⟨pg, c, h⟩ | h <;> simp only [liftR, h]
+  · exact ⟨trivial, by simp [GoodAt, hI, h0]⟩
+  · simp [okCodes]
+
+theorem good_listObjs {s : St} (hI : Inv s) (fn : String) (k : OKind) (r : Req)
+    (h0 : respStatus fn 0 ∈ okStatus) :
+    GoodAt (fun resp => resp.status ∈ okStatus) s (listObjs fn k r) := by
+  unfold listObjs
+  apply GoodAt.bind
+  simp only [getSt]
+  exact ⟨trivial, good_listPage hI fn r _ h0⟩
+
+theorem good_deleteObj {s : St} (hI : Inv s) (fn id : String) (k : OKind) (r : Req)
+    (h0 : respStatus fn 0 ∈ okStatus) :
+    GoodAt (fun resp => resp.status ∈ okStatus) s (deleteObj fn id k r) := by
+  unfold deleteObj
+  apply GoodAt.bind
+  rcases getObjTs_cases id k s with ⟨o, h, hg, _⟩ | ⟨h, _⟩ <;> rw [h]
+  · refine ⟨rfl, ?_⟩
+    have hid := hI.ownId id o hg
+    unfold GoodAt
+    have h1 : InvL (AList.erase id s.objs) := inv_erase hI id
+    simp [M.bind', storeRemove, hid, h0, h1]
+  · simp [okCodes]
+
+
+theorem payload_obj_of_matches {p : Payload} {ex : Expect} (hex : ex = .shell ∨ ex = .sm ∨ ex = .cd)
+    (hm : p.matchesExpect ex = true) : ∃ o, p = .obj o := by
+  cases p with
+  | obj o => exact ⟨o, rfl⟩
+  | elem e => rcases hex with h | h | h <;> subst h <;> simp [Payload.matchesExpect] at hm
+  | qual t v => rcases hex with h | h | h <;> subst h <;> simp [Payload.matchesExpect] at hm
+  | ref i => rcases hex with h | h | h <;> subst h <;> simp [Payload.matchesExpect] at hm
+  | other => rcases hex with h | h | h <;> subst h <;> simp [Payload.matchesExpect] at hm
+
+theorem catching_ok {α : Type} (fn : String) (a : α) : catching fn (.ok a) = .ok a := rfl
+theorem catching_http {α : Type} (fn : String) (c : Nat) : (catching fn (.http c) : Res α) = .http c := rfl
+
+theorem good_postObj {s : St} (hI : Inv s) (fn : String) (loc : String → Loc) (r : Req)
+    (hex : expectOf fn = .shell ∨ expectOf fn = .sm ∨ expectOf fn = .cd)
+    (hc : (catching fn (.py .keyError) : Res Unit) = .http 409) (h0 : respStatus fn 0 ∈ okStatus) :
+    GoodAt (fun resp => resp.status ∈ okStatus) s (postObj fn loc r) := by
+  unfold postObj
+  apply GoodAt.bind
+  have hne : expectOf fn ≠ .unmodelled := by rcases hex with h | h | h <;> rw [h] <;> decide
+  rcases requestBody_cases fn r hne with ⟨p, hp, hm⟩ | h | h
+  · simp only [liftR, hp]
+    refine ⟨trivial, ?_⟩
+    obtain ⟨o, rfl⟩ := payload_obj_of_matches hex hm
+    simp only []
+    unfold GoodAt
+    simp only [M.bind_apply, M.bind', storeAdd, tryM, commitObj]
+    by_cases hh : AList.has o.id s.objs = true
+    · simp [hh, hc, okCodes]
+    · have h1 : InvL (AList.set o.id o s.objs) := inv_set hI rfl
+      have h2 : InvL (AList.set o.id o (AList.set o.id o s.objs)) := inv_set h1 rfl
+      by_cases hf : s.fileBacked = true <;> by_cases hn : commitsOf fn > 0 <;>
+        simp [hh, hf, hn, catching_ok, h0, h1, h2]
+  · simp [liftR, h, okCodes]
+  · simp [liftR, h, okCodes]
+
+
+theorem objUpdateFrom_spec {o n : Obj} (hk : o.kind = n.kind) :
+    (objUpdateFrom o n).1.id = n.id ∧ (objUpdateFrom o n).1.kind = n.kind ∧
+      (∀ e, (objUpdateFrom o n).2 = some e → UFExc e) := by
+  cases o <;> cases n <;> simp [Obj.kind] at hk <;> simp [objUpdateFrom, Obj.id, Obj.kind]
+  rename_i i root j nroot
+  intro e he
+  exact ⟨root, nroot, he⟩
+
+theorem expectSameId_cases (o n : Obj) :
+    (expectSameId o n = .ok () ∧ o.kind = n.kind ∧ n.id = o.id) ∨ expectSameId o n = .http 400 := by
+  unfold expectSameId
+  by_cases hk : o.kind = n.kind
+  · by_cases hi : n.id = o.id
+    · left; simp [hk, hi]
+    · right; simp [hk, hi, raise_same_identity_1]
+  · right; simp [hk, raise_same_identity_0]
+
+theorem good_putObj {s : St} (hI : Inv s) (fn id : String) (k : OKind) (r : Req)
+    (hex : expectOf fn = .shell ∨ expectOf fn = .sm ∨ expectOf fn = .cd) (h0 : respStatus fn 0 ∈ okStatus) :
+    GoodAt (fun resp => resp.status ∈ okStatus) s (putObj fn id k r) := by
+  unfold putObj
+  apply GoodAt.bind
+  rcases getObjTs_cases id k s with ⟨o, h, hg, _⟩ | ⟨h, _⟩ <;> rw [h]
+  · refine ⟨rfl, ?_⟩
+    have hid := hI.ownId id o hg
+    apply GoodAt.bind
+    have hne : expectOf fn ≠ .unmodelled := by rcases hex with h | h | h <;> rw [h] <;> decide
+    rcases requestBody_cases fn r hne with ⟨p, hp, hm⟩ | h | h
+    · simp only [liftR, hp]
+      refine ⟨trivial, ?_⟩
+      obtain ⟨n, rfl⟩ := payload_obj_of_matches hex hm
+      simp only []
+      apply GoodAt.bind
+      rcases expectSameId_cases o n with ⟨he, hk, hi⟩ | he <;> simp only [liftR, he]
+      · refine ⟨trivial, ?_⟩
+        obtain ⟨h1, _, h3⟩ := objUpdateFrom_spec hk
+        have hid' : (objUpdateFrom o n).1.id = id := by rw [h1, hi, hid]
+        have hs1 : InvL (AList.set id (objUpdateFrom o n).1 s.objs) := inv_set hI hid'
+        cases herr : (objUpdateFrom o n).2 with
+        | none =>
+          have := good_tail (Q := fun resp : Resp => resp.status ∈ okStatus) hI hid' (commitsOf fn)
+            (a := mkResp fn 0 r none (fun _ => .empty)) (by simpa using h0)
+          unfold GoodAt at this ⊢
+          simpa [M.bind', herr] using this
+        | some e =>
+          have hu := h3 e herr
+          unfold GoodAt
+          by_cases hf : s.fileBacked = true
+          · simp [M.bind', live, liftR, herr, hf, hu]; exact hI
+          · simp [M.bind', live, liftR, herr, hf, hu, hs1]
+      · simp [okCodes]
+    · simp [liftR, h, okCodes]
+    · simp [liftR, h, okCodes]
+  · simp [okCodes]
+
+
+/-! ### nested elements, qualifiers, references -/
+
+theorem getReferable_cases (root : Elem) (path : List String) :
+    (∃ e, getReferable root path = .ok e) ∨ getReferable root path = .py .keyError ∨
+      getReferable root path = .py .typeError := by
+  induction path generalizing root with
+  | nil => left; exact ⟨root, rfl⟩
+  | cons k rest ih =>
+    unfold getReferable
+    by_cases hn : root.isNamespace = true
+    · simp only [hn, not_true_eq_false, if_false]
+      cases findKey k root.ch with
+      | none => right; left; rfl
+      | some c => exact ih c
+    · right; right; simp [hn]
+
+theorem getNested_cons_cases (root : Elem) (x : String) (xs : List String) :
+    (∃ e, getNested root (x :: xs) = .ok e ∧ getReferable root (x :: xs) = .ok e) ∨
+      getNested root (x :: xs) = .http 404 ∨ getNested root (x :: xs) = .http 400 := by
+  unfold getNested
+  simp only [List.isEmpty_cons, Bool.false_eq_true, if_false]
+  rcases getReferable_cases root (x :: xs) with ⟨e, h⟩ | h | h <;> rw [h]
+  · left; exact ⟨e, rfl, rfl⟩
+  · right; left; exact catch_nested_key
+  · right; right; exact catch_nested_type
+
+theorem getNested_nil (root : Elem) : getNested root [] = .py .valueError := by
+  simp [getNested, raise_get_nested]
+
+/-- `_get_submodel_or_nested_submodel_element` reads the state only; the path it returns resolves to the target -/
+theorem getSmOrNested_cases (a : Args) (s : St) :
+    (∃ sm path e, getSmOrNested a s = (s, .ok (sm, path, e)) ∧ AList.get a.smId s.objs = some sm ∧
+        getReferable sm.root path = .ok e) ∨
+    (∃ c, getSmOrNested a s = (s, .http c) ∧ c ∈ okCodes) := by
+  unfold getSmOrNested
+  simp only [M.bind_apply, M.bind']
+  rcases getObjTs_cases a.smId .sm s with ⟨sm, h, hg, _⟩ | ⟨h, _⟩ <;> rw [h]
+  · simp only []
+    cases hp : a.idShorts.getD [] with
+    | nil =>
+      left
+      refine ⟨sm, [], sm.root, ?_, hg, rfl⟩
+      simp [getNested_nil, swallow_sm_or_nested]
+    | cons x xs =>
+      rcases getNested_cons_cases sm.root x xs with ⟨e, h1, h2⟩ | h1 | h1 <;> rw [h1]
+      · left; exact ⟨sm, x :: xs, e, rfl, hg, h2⟩
+      · right; exact ⟨404, rfl, by simp [okCodes]⟩
+      · right; exact ⟨400, rfl, by simp [okCodes]⟩
+  · right; exact ⟨404, rfl, by simp [okCodes]⟩
+
+theorem smWithRoot_id (sm : Obj) (root : Elem) : (smWithRoot sm root).id = sm.id := rfl
+
+/-- shape shared by every handler that changes one stored submodel and answers -/
+theorem good_sm_tail {s : St} (hI : Inv s) {smId : String} {sm : Obj} (hg : AList.get smId s.objs = some sm)
+    (root : Elem) (n : Nat) {resp : Resp} (hq : resp.status ∈ okStatus) :
+    GoodAt (fun resp => resp.status ∈ okStatus) s
+      (live smId (smWithRoot sm root) >>= fun _ => commitObj n smId (smWithRoot sm root) >>= fun _ => pure resp) :=
+  good_tail hI (by rw [smWithRoot_id]; exact hI.ownId smId sm hg) n hq
+
+theorem payload_elem_of_matches {p : Payload} (hm : p.matchesExpect .elem = true) : ∃ e, p = .elem e := by
+  cases p with
+  | elem e => exact ⟨e, rfl⟩
+  | obj o => cases o <;> simp [Payload.matchesExpect] at hm
+  | _ => simp [Payload.matchesExpect] at hm
+
+theorem payload_qual_of_matches {p : Payload} (hm : p.matchesExpect .qual = true) : ∃ t v, p = .qual t v := by
+  cases p with
+  | qual t v => exact ⟨t, v, rfl⟩
+  | obj o => cases o <;> simp [Payload.matchesExpect] at hm
+  | _ => simp [Payload.matchesExpect] at hm
+
+theorem payload_ref_of_matches {p : Payload} (hm : p.matchesExpect .ref = true) : ∃ i, p = .ref i := by
+  cases p with
+  | ref i => exact ⟨i, rfl⟩
+  | obj o => cases o <;> simp [Payload.matchesExpect] at hm
+  | _ => simp [Payload.matchesExpect] at hm
+
+theorem addReferable_cases (parent n : Elem) :
+    (∃ p', addReferable parent n = .ok p') ∨ addReferable parent n = .py (.aascv 117) ∨
+      addReferable parent n = .py (.aascv 22) := by
+  unfold addReferable
+  cases n.idShort with
+  | none => right; left; rfl
+  | some k =>
+    simp only []
+    by_cases h : (findKey k parent.ch).isSome = true
+    · right; right; simp [h]
+    · left; exact ⟨_, by simp [h]⟩
+
+theorem removeReferable_cases (parent : Elem) (k : String) :
+    (∃ p', removeReferable parent k = .ok p') ∨ removeReferable parent k = .py .keyError := by
+  unfold removeReferable
+  cases findKey k parent.ch with
+  | none => right; rfl
+  | some item =>
+    simp only []
+    unfold nssRemove
+    cases item.idShort with
+    | none => right; rfl
+    | some k' =>
+      simp only []
+      cases findKey k' parent.ch with
+      | none => right; rfl
+      | some x =>
+        simp only []
+        by_cases hx : x.key = item.key
+        · left; exact ⟨_, by simp [hx, Bind.bind, Res.bind, pure]⟩
+        · right; simp [hx, Bind.bind, Res.bind]
 
 end Basyx.Repo
